@@ -35,7 +35,6 @@ import (
 	"encoding/json"
 	"fmt"
 	"go/ast"
-	"go/parser"
 	"go/printer"
 	"go/token"
 	golog "log"
@@ -91,6 +90,8 @@ type c17xFunc struct {
 	loops   []ast.Node // for / range statements of the function
 	loggers map[string]bool
 	skipped *[]string
+	me      *c17xFn    // the same function in the index of all functions (error summaries, client-derived values)
+	ix      *c17xIndex
 }
 
 func c17xText(fset *token.FileSet, e ast.Node) string {
@@ -352,9 +353,13 @@ func (f *c17xFunc) classify(e ast.Expr, verb string, pos token.Pos, depth int) [
 		return f.classify(x.X, verb, pos, depth)
 	}
 	if _, ok := c17xIsCall(e, "generalizeErr"); ok {
-		return []string{".genErr"}
+		return f.errArgs(e, pos)
 	}
 	if c, ok := e.(*ast.CallExpr); ok {
+		// an error constructed in place
+		if c17xErrCtors[c17xText(f.fset, c.Fun)] {
+			return f.errArgs(e, pos)
+		}
 		// x.Error() → classify x
 		if sel, ok := c.Fun.(*ast.SelectorExpr); ok && sel.Sel.Name == "Error" && len(c.Args) == 0 {
 			return f.classify(sel.X, verb, pos, depth)
@@ -416,27 +421,7 @@ func (f *c17xFunc) classify(e ast.Expr, verb string, pos token.Pos, depth int) [
 			}
 		}
 		if isErrVar {
-			if len(rs) == 0 {
-				return []string{".rawErr " + q("?"+id.Name)}
-			}
-			var out []string
-			for _, a := range rs {
-				switch {
-				case a.rhs == nil:
-					out = append(out, ".rawErr "+q("?"+id.Name))
-				default:
-					if _, ok := c17xIsCall(a.rhs, "generalizeErr"); ok {
-						out = append(out, ".genErr")
-					} else if c, ok := a.rhs.(*ast.CallExpr); ok {
-						out = append(out, ".rawErr "+q(c17xText(f.fset, c.Fun)))
-					} else if rid, ok := a.rhs.(*ast.Ident); ok && rid.Name == "nil" {
-						out = append(out, ".lit")
-					} else {
-						out = append(out, ".rawErr "+q("="+c17xText(f.fset, a.rhs)))
-					}
-				}
-			}
-			return c17xDedup(out)
+			return f.errArgs(id, pos)
 		}
 		if len(rs) == 0 {
 			if f.params[id.Name] {
@@ -462,6 +447,21 @@ func (f *c17xFunc) classify(e ast.Expr, verb string, pos token.Pos, depth int) [
 		return c17xDedup(out)
 	}
 	return []string{".expr " + q(c17xText(f.fset, e))}
+}
+
+// errArgs: an error value printed by a logger: where it can come from (see zz_verif_c17_errflow_test.go)
+func (f *c17xFunc) errArgs(e ast.Expr, pos token.Pos) []string {
+	var out []string
+	for _, s := range f.me.errSrcs(e, pos, 0, true) {
+		if s.tainted == "" && s.text == "~plumbing" {
+			s.text = "?received from a channel or a collection"
+		}
+		out = append(out, ".err ("+f.ix.leanSrc(s)+")")
+	}
+	if len(out) == 0 {
+		return []string{".lit"} // nil, or constant text
+	}
+	return c17xDedup(out)
 }
 
 // lookThrough: the value is a literal, a concatenation or a Sprintf: classify its parts instead of the name
@@ -593,17 +593,20 @@ func c17xFiles(root string) ([]string, error) {
 // directories whose errors travel up into generalizeErr / a logger of the connection path
 var c17xFlattenDirs = []string{"cmd/application/", "pkg/station/lib/", "pkg/transports/wrapping/"}
 
-func c17xExtract(root string) (sites []c17xSite, assigns []string, skipped []string, flatten []string, err error) {
-	files, err := c17xFiles(root)
+func c17xExtract(root string) (sites []c17xSite, assigns []string, skipped []string, flatten []string, ix *c17xIndex, err error) {
+	ix, err = c17xLoad(root)
 	if err != nil {
-		return nil, nil, nil, nil, err
+		return nil, nil, nil, nil, nil, err
 	}
-	for _, rel := range files {
-		fset := token.NewFileSet()
-		file, err := parser.ParseFile(fset, filepath.Join(root, rel), nil, 0)
-		if err != nil {
-			return nil, nil, nil, nil, err
+	byDecl := map[*ast.FuncDecl]*c17xFn{}
+	for _, fn := range ix.fns {
+		byDecl[fn.decl] = fn
+	}
+	for _, cf := range ix.files {
+		if !cf.site {
+			continue
 		}
+		rel, fset, file := cf.rel, cf.fset, cf.ast
 		// package-level loggers of this file and assignments to logClientIP (declaration included)
 		globals := map[string]bool{}
 		for _, d := range file.Decls {
@@ -657,8 +660,8 @@ func c17xExtract(root string) (sites []c17xSite, assigns []string, skipped []str
 			if !ok || fd.Body == nil {
 				continue
 			}
-			f := &c17xFunc{fset: fset, name: fd.Name.Name, assigns: map[string][]c17xAssign{}, params: map[string]bool{},
-				loggers: map[string]bool{}, skipped: &skipped}
+			f := byDecl[fd].c17xFunc
+			f.skipped = &skipped
 			for g := range globals {
 				f.loggers[g] = true
 			}
@@ -678,7 +681,15 @@ func c17xExtract(root string) (sites []c17xSite, assigns []string, skipped []str
 					}
 				}
 			}
-			f.collect(fd.Body)
+			// the assignments were collected when the index was built; loggers assigned from a package-level
+			// logger or a logger parameter are recognised now that those are known
+			for name, as := range f.assigns {
+				for _, a := range as {
+					if a.rhs != nil && f.isLoggerExpr(a.rhs) {
+						f.loggers[name] = true
+					}
+				}
+			}
 			// fmt.Errorf that prints an error with a verb other than %w: the error is flattened into opaque
 			// text, and with it whatever address an operation error inside it names
 			inFlattenDir := false
@@ -769,6 +780,61 @@ func c17xExtract(root string) (sites []c17xSite, assigns []string, skipped []str
 				emit(call, level, format, la)
 				return true
 			})
+			// the JSON summaries are printed at every level (`proxy closed {…}`) or handed to a logger as text: what
+			// is stored in their string fields is printed — every assignment to such a field and every field of a
+			// literal of those types is a sink like an argument of Printf
+			if strings.HasPrefix(rel, "pkg/station/lib/") {
+				sink := func(pos token.Pos, typ, field string, rhs ast.Expr) {
+					line := fset.Position(pos).Line
+					la := f.classify(rhs, "", pos, 0)
+					sites = append(sites, c17xSite{rel, fd.Name.Name, line, fmt.Sprintf(
+						"  { file := %s, fn := %s, line := %d, level := .print, format := %s,\n    args := [%s] }",
+						c17xLeanStr(rel), c17xLeanStr(fd.Name.Name), line, c17xLeanStr("<field "+typ+"."+field+">"), strings.Join(la, ", "))})
+				}
+				ast.Inspect(fd.Body, func(n ast.Node) bool {
+					switch x := n.(type) {
+					case *ast.AssignStmt:
+						for i, l := range x.Lhs {
+							sel, ok := l.(*ast.SelectorExpr)
+							if !ok || len(x.Rhs) != len(x.Lhs) {
+								continue
+							}
+							id, ok := sel.X.(*ast.Ident)
+							if !ok {
+								continue
+							}
+							for typ, fields := range ix.summaryTypes {
+								if !fields[sel.Sel.Name] {
+									continue
+								}
+								if t, known := byDecl[fd].typeOf(id.Name); known && (t.external || t.name != typ) {
+									continue // a value of another type that has a field of the same name
+								}
+								sink(x.Pos(), typ, sel.Sel.Name, x.Rhs[i])
+							}
+						}
+					case *ast.CompositeLit:
+						if x.Type == nil {
+							return true
+						}
+						typ := strings.TrimPrefix(c17xText(fset, x.Type), "*")
+						fields, ok := ix.summaryTypes[typ]
+						if !ok {
+							return true
+						}
+						for _, el := range x.Elts {
+							if kv, ok := el.(*ast.KeyValueExpr); ok {
+								if k, ok := kv.Key.(*ast.Ident); ok && fields[k.Name] {
+									sink(kv.Pos(), typ, k.Name, kv.Value)
+								}
+							} else {
+								sink(el.Pos(), typ, "<positional>", el)
+							}
+						}
+					}
+					return true
+				})
+			}
 		}
 	}
 	sort.SliceStable(sites, func(i, j int) bool {
@@ -777,7 +843,7 @@ func c17xExtract(root string) (sites []c17xSite, assigns []string, skipped []str
 		}
 		return sites[i].line < sites[j].line
 	})
-	return sites, assigns, c17xDedup(skipped), c17xDedup(flatten), nil
+	return sites, assigns, c17xDedup(skipped), c17xDedup(flatten), ix, nil
 }
 
 // c17xLevelTable: which methods write with the level a new logger starts with.
@@ -861,7 +927,7 @@ func TestVerifC17Extract(t *testing.T) {
 	if root == "" {
 		root = "../../.."
 	}
-	sites, assigns, skipped, flatten, err := c17xExtract(root)
+	sites, assigns, skipped, flatten, ix, err := c17xExtract(root)
 	if err != nil {
 		t.Fatal(err)
 	}
@@ -884,6 +950,15 @@ func TestVerifC17Extract(t *testing.T) {
 		b.WriteString("\n")
 	}
 	b.WriteString("]\n\n")
+	b.WriteString("/-- what every function of this repository that a logged error can come from (transitively) returns as its\nerror; callees before callers; `⟨call, [i, …]⟩` refers to entries of this list -/\n")
+	b.WriteString(ix.leanErrFns())
+	b.WriteString("\n/-- the class of each entry of `errFns`, computed by the extractor from the summaries and the reviewed tables\nof the Lean model; not trusted: `classes_fixpoint` checks that it solves the class equations -/\n")
+	cert, err := ix.certificate()
+	if err != nil {
+		t.Fatal(err)
+	}
+	b.WriteString(cert)
+	b.WriteString("\n")
 	b.WriteString("/-- which logger methods write at the level a logger starts with (observed at run time) -/\n")
 	b.WriteString("def levelEmitted : List (Level × Bool) := [" + strings.Join(levels, ", ") + "]\n\n")
 	b.WriteString("/-- the initialiser of each declaration of `logClientIP` (`<zero>`: none) and the right-hand side of every\nassignment to it, in cmd/application -/\n")
